@@ -34,11 +34,343 @@ func hasNestedHdocInHdocBody(f any) bool {
 	return found
 }
 
-func classC01(c Case, p *prepared, f Failure) string {
+func hasCaseBraces(n any) bool {
+	found := false
+	Visit(n, func(x any) {
+		if cc, ok := x.(*syntax.CaseClause); ok && cc.Braces {
+			found = true
+		}
+	})
+	return found
+}
+
+func isShapeClause(cl string) bool { return cl == "shape" || strings.HasSuffix(cl, "_shape") }
+
+// any nested statement list inside a word: command/process substitution
+func containsSubst(n any) bool {
+	found := false
+	Visit(n, func(x any) {
+		switch x.(type) {
+		case *syntax.CmdSubst, *syntax.ProcSubst:
+			found = true
+		}
+	})
+	return found
+}
+
+func treeHas(n any, pred func(x any) bool) bool {
+	found := false
+	Visit(n, func(x any) {
+		if !found && pred(x) {
+			found = true
+		}
+	})
+	return found
+}
+
+// commonClass: mechanisms that break C01 and C02 alike (decidable on source bytes / input tree / options).
+func commonClass(c Case, p *prepared) string {
+	switch {
+	case strings.Contains(c.In.Src, "\\\r"):
+		// a backslash directly followed by a carriage return: `\`+CR is kept as an escaped CR
+		// by the lexer, but printed before a newline it becomes a `\`+CR+LF line continuation
+		return "escaped_carriage_return"
+	case containsHdoc(p.f) && (c.Opt.Single || c.Opt.Minify || containsSubst(p.f) || treeHas(p.f, func(x any) bool {
+		// ... or the right-hand side of a pipeline/list whose left side holds the heredoc
+		b, ok := x.(*syntax.BinaryCmd)
+		return ok && containsHdoc(b.X)
+	})):
+		// pending heredoc bodies are written at the next newline the printer happens to emit,
+		// which with SingleLine/Minify or a command substitution later on the line may be
+		// inside a nested construct
+		return "heredoc_body_placement"
+	case treeHas(p.f, func(x any) bool {
+		r, ok := x.(*syntax.Redirect)
+		if !ok || r.Op != syntax.DashHdoc || r.Hdoc == nil {
+			return false
+		}
+		// an escaped newline inside the body: kept in a Lit, or between two adjacent Lit parts
+		for i, wp := range r.Hdoc.Parts {
+			l, ok := wp.(*syntax.Lit)
+			if !ok {
+				continue
+			}
+			if strings.Contains(l.Value, "\\\n") {
+				return true
+			}
+			if i+1 < len(r.Hdoc.Parts) {
+				if _, ok := r.Hdoc.Parts[i+1].(*syntax.Lit); ok {
+					return true
+				}
+			}
+		}
+		return false
+	}):
+		// the line after an escaped newline in a <<- body is re-indented with tabs that
+		// become part of the joined line
+		return "dash_heredoc_line_continuation"
+	case treeHas(p.f, func(x any) bool {
+		cm, ok := x.(*syntax.Comment)
+		if !ok {
+			return false
+		}
+		// (the lexer keeps the escaped newline as part of the comment text)
+		t := strings.TrimRight(cm.Text, " \t\r\n")
+		n := len(t) - len(strings.TrimRight(t, "\\"))
+		return n%2 == 1
+	}):
+		// the lexer joins the line after a comment ending in a backslash to the comment's
+		// line, so wherever the printer puts such a comment the following line is swallowed
+		return "comment_ending_in_backslash"
+	case treeHas(p.f, func(x any) bool {
+		switch x := x.(type) {
+		case *syntax.ForClause:
+			return len(x.Do) == 0 && hasComments(p.f)
+		case *syntax.WhileClause:
+			return (len(x.Do) == 0 || len(x.Cond) == 0) && hasComments(p.f)
+		}
+		return false
+	}):
+		// mksh/zsh allow empty loop bodies; the parser drops comments inside them
+		return "comments_in_empty_loop_body"
+	case strings.Contains(c.In.Src, "$\\\n"):
+		// `$` + escaped newline + a character that forms an expansion with `$` (`$\`NL`#` is
+		// the literal `$#` to the lexer, but printed as `$#` it is a parameter expansion)
+		return "dollar_before_escaped_newline"
+	}
 	return ""
 }
 
-func classC02(c Case, p *prepared, out1, out2 string) string {
+func classC01(c Case, p *prepared, f Failure) string {
+	if k := commonClass(c, p); k != "" {
+		return k
+	}
+	switch {
+	case isShapeClause(f.Clause) && hasCaseBraces(p.f) && strings.Contains(f.Detail, "CaseClause{Braces=T"):
+		return "mksh_case_braces_printed_as_in_esac"
+	case c.Opt.Minify && isShapeClause(f.Clause) && treeHas(p.f, func(x any) bool {
+		cc, ok := x.(*syntax.CaseClause)
+		return ok && len(cc.Items) > 0 && cc.Items[len(cc.Items)-1].Op != syntax.Break
+	}):
+		return "minify_last_case_item_operator"
+	case treeHas(p.f, func(x any) bool {
+		fd, ok := x.(*syntax.FuncDecl)
+		if !ok || !fd.RsrvWord || fd.Parens || fd.Body == nil {
+			return false
+		}
+		_, sub := fd.Body.Cmd.(*syntax.Subshell)
+		return sub
+	}) && strings.Contains(f.Detail, "must be followed by `)`"):
+		return "function_keyword_subshell_body"
+	case c.In.Lang == syntax.LangZsh && c.Opt.Minify && strings.HasPrefix(f.Clause, "sub_") && treeHas(p.f, func(x any) bool {
+		pe, ok := x.(*syntax.ParamExp)
+		return ok && !pe.Short && IsSimpleParam(pe) && pe.Param.Value == "#"
+	}):
+		// zsh: `${#}` minified to `$#`; at the very end of the input (a node printed on its
+		// own has no trailing newline) the zsh lexer reads `$#` as a literal `$`
+		return "zsh_minify_dollar_hash_at_eof"
+	case c.Opt.Minify && treeHas(p.f, func(x any) bool { _, ok := x.(*syntax.LetClause); return ok }) &&
+		(f.Clause == "reparse" || strings.HasSuffix(f.Clause, "_reparse")):
+		// Minify writes `&`, `&&`, `|` directly after a let expression, where they continue the arithmetic
+		return "minify_let_operator_adjacent"
+	case c.Opt.Minify && treeHas(p.f, func(x any) bool {
+		b, ok := x.(*syntax.BinaryCmd)
+		if !ok || b.Op != syntax.Pipe || b.Y == nil || len(b.Y.Redirs) == 0 {
+			return false
+		}
+		r := b.Y.Redirs[0]
+		return (r.Op == syntax.RdrAll || r.Op == syntax.AppAll) && (b.Y.Cmd == nil || b.Y.Cmd.Pos().After(r.Pos()))
+	}):
+		// Minify writes `|` directly before a leading `&>` redirection: `|&>` lexes as `|&` `>`
+		return "minify_pipe_before_ampersand_redirect"
+	case hasCoprocNameCall(p.f):
+		return "coproc_name_with_simple_command"
+	}
+	return ""
+}
+
+// `coproc NAME cmd` where cmd is a simple command: bash only takes a NAME before a compound
+// command; the parser records Name here and the printer cannot reproduce the order
+func hasCoprocNameCall(n any) bool {
+	return treeHas(n, func(x any) bool {
+		cp, ok := x.(*syntax.CoprocClause)
+		if !ok || cp.Stmt == nil {
+			return false
+		}
+		ce, call := cp.Stmt.Cmd.(*syntax.CallExpr)
+		return call && (cp.Name != nil || len(ce.Assigns) > 0)
+	})
+}
+
+func stripBytes(s, cut string) string {
+	return strings.Map(func(r rune) rune {
+		if strings.ContainsRune(cut, r) {
+			return -1
+		}
+		return r
+	}, s)
+}
+
+func trimLines(s string) string {
+	ls := strings.Split(s, "\n")
+	for i := range ls {
+		ls[i] = strings.TrimLeft(ls[i], " \t")
+	}
+	return strings.Join(ls, "\n")
+}
+
+// a parenthesised statement list whose first statement starts with "(" or whose only
+// statement ends with ")": the printer decides the `( (` / `) )` spacing from SOURCE lines
+func hasNestedParens(n any) bool {
+	starts := func(st *syntax.Stmt) bool {
+		for st != nil {
+			switch c := st.Cmd.(type) {
+			case *syntax.Subshell, *syntax.ArithmCmd:
+				return true
+			case *syntax.BinaryCmd:
+				st = c.X
+				continue
+			}
+			return false
+		}
+		return false
+	}
+	ends := func(st *syntax.Stmt) bool {
+		for st != nil {
+			if st.Background || st.Coprocess || st.Disown || len(st.Redirs) > 0 {
+				return false
+			}
+			switch c := st.Cmd.(type) {
+			case *syntax.Subshell, *syntax.ArithmCmd:
+				return true
+			case *syntax.BinaryCmd:
+				st = c.Y
+				continue
+			}
+			return false
+		}
+		return false
+	}
+	check := func(stmts []*syntax.Stmt) bool {
+		return len(stmts) > 0 && (starts(stmts[0]) || ends(stmts[len(stmts)-1]))
+	}
+	return treeHas(n, func(x any) bool {
+		switch x := x.(type) {
+		case *syntax.Subshell:
+			return check(x.Stmts)
+		case *syntax.CmdSubst:
+			return check(x.Stmts)
+		}
+		return false
+	})
+}
+
+func hasCaseComments(n any) bool {
+	return treeHas(n, func(x any) bool {
+		cc, ok := x.(*syntax.CaseClause)
+		if !ok {
+			return false
+		}
+		if len(cc.Last) > 0 {
+			return true
+		}
+		for _, it := range cc.Items {
+			if len(it.Comments) > 0 || len(it.Last) > 0 {
+				return true
+			}
+		}
+		return false
+	})
+}
+
+func hasComments(n any) bool {
+	return treeHas(n, func(x any) bool { _, ok := x.(*syntax.Comment); return ok })
+}
+
+// a statement terminator (`;` `&`) on a later line than the end of its command and redirections
+func hasLateTerminator(n any) bool {
+	return treeHas(n, func(x any) bool {
+		st, ok := x.(*syntax.Stmt)
+		if !ok || !st.Semicolon.IsValid() {
+			return false
+		}
+		end := st.Position
+		if st.Cmd != nil {
+			end = st.Cmd.End()
+		}
+		if len(st.Redirs) > 0 {
+			if e := st.Redirs[len(st.Redirs)-1].End(); e.After(end) {
+				end = e
+			}
+		}
+		return st.Semicolon.Line() > end.Line()
+	})
+}
+
+func hasCoprocWithComments(n any) bool {
+	return hasComments(n) && treeHas(n, func(x any) bool { _, ok := x.(*syntax.CoprocClause); return ok })
+}
+
+// double-quoted string containing an escaped newline (inside a Lit, or between adjacent Lits)
+func hasDblQuotedEscapedNewline(n any) bool {
+	return treeHas(n, func(x any) bool {
+		dq, ok := x.(*syntax.DblQuoted)
+		if !ok {
+			return false
+		}
+		for i, wp := range dq.Parts {
+			if l, ok := wp.(*syntax.Lit); ok {
+				if strings.Contains(l.Value, "\\\n") {
+					return true
+				}
+				if i+1 < len(dq.Parts) {
+					if _, ok := dq.Parts[i+1].(*syntax.Lit); ok {
+						return true
+					}
+				}
+			}
+		}
+		return dq.Right.Line() > dq.Left.Line() && len(dq.Parts) == 0
+	})
+}
+
+// classC02: sameTree = the second output parses to the same tree and comment sequence as the
+// first (the two outputs differ in layout only).
+func classC02(c Case, p *prepared, out1, out2 string, sameTree bool) string {
+	if k := commonClass(c, p); k != "" {
+		return k
+	}
+	switch {
+	case hasCoprocWithComments(p.f):
+		return "coproc_trailing_comment"
+	case hasCoprocNameCall(p.f):
+		return "coproc_name_with_simple_command"
+	case c.Simplify && c.Opt.Single && hasDblQuotedEscapedNewline(p.f):
+		// SingleLine drops the escaped newline inside double quotes; only then can Simplify
+		// turn the string into single quotes, on the second pass
+		return "singleline_simplify_dblquoted_escaped_newline"
+	case !sameTree:
+		return ""
+	case hasNestedParens(p.f) && stripBytes(out1, " ") == stripBytes(out2, " "):
+		return "nested_paren_spacing_by_source_lines"
+	case hasCaseComments(p.f) && trimLines(out1) == trimLines(out2):
+		return "case_comment_indentation"
+	case hasComments(p.f):
+		// a comment forces a newline where the first pass would otherwise join lines; the
+		// second pass sees the comment at its new position and lays the construct out differently
+		return "comment_layout_not_fixpoint"
+	case hasLateTerminator(p.f):
+		return "escaped_newline_before_terminator"
+	case treeHas(p.f, func(x any) bool {
+		l, ok := x.(*syntax.Lit)
+		return ok && l.ValueEnd.Line() > l.ValuePos.Line() && !strings.Contains(l.Value, "\n")
+	}):
+		// an unquoted literal split by an escaped newline: its end line misleads the layout
+		return "escaped_newline_inside_literal"
+	case c.Opt.Minify && stripBytes(out1, ";\n") == stripBytes(out2, ";\n"):
+		// Minify chooses between ';' and newline from source lines
+		return "minify_separator_by_source_lines"
+	}
 	return ""
 }
 
@@ -56,6 +388,12 @@ func binaryRHSComments(f any) map[*syntax.Comment]bool {
 }
 
 func classC05(c Case, p *prepared, got []string) string {
-	_ = strings.TrimSpace
+	if k := commonClass(c, p); k != "" {
+		return k
+	}
+	if hasCoprocWithComments(p.f) {
+		// `coproc foo #c`: the parser's lookahead for the optional coproc name drops the comment
+		return "coproc_trailing_comment"
+	}
 	return ""
 }
